@@ -13,7 +13,8 @@ from vh.props import c01, c03, c04, c07
 PROP = 'C12'
 RULE = ("scenario = one of the C01 / C03 / C04 / C07 scenario families (simple and sequence "
         "searches, file-level and per-search since constraints) x {gzip level 1, 6, 9, "
-        "multi-member with 2..4 members cut at arbitrary byte positions}; non-trivial = the "
+        "multi-member with 2..4 members cut at arbitrary byte positions}; plus one 64 MB log with a "
+        "since constraint (plain vs gzip, no model); non-trivial = the "
         "content has >= 3 lines and the plain run returns >= 1 result; distinct by "
         "(scenario, encoding) hash")
 
@@ -105,17 +106,79 @@ def strip(obs):
     return S.pub(obs)
 
 
+def huge_eval(rng, count, extra):
+    """ a log of ~64 MB (300 000 dated lines, poorly compressible) searched with a file-level
+    since constraint, plain and gzip: however long the seeks in the compressed stream take,
+    the search starts at the same line.  No model run (the content never leaves this process):
+    the property is checked directly, plain vs gzip. """
+    import gzip
+    import hashlib
+    import os
+    import shutil
+    import tempfile
+    from datetime import datetime, timedelta
+    core.import_searchkit()
+    from searchkit import FileSearcher, SearchDef
+    from searchkit.constraints import SearchConstraintSearchSince
+    from vh import matchers
+    n = extra.get('lines', 300000)
+    t0 = datetime(2024, 1, 1)
+    tmp = tempfile.mkdtemp(prefix='vh-huge-')
+    try:
+        body = []
+        for k in range(n):
+            t = t0 + timedelta(seconds=60 * k)
+            body.append((t.strftime('%Y-%m-%d %H:%M:%S ') +
+                         hashlib.sha256(b'%d' % k).hexdigest() * 3 +
+                         (' ERR' if k % 1000 == 0 else '')).encode())
+        data = b'\n'.join(body) + b'\n'
+        plain, gz = os.path.join(tmp, 'a.log'), os.path.join(tmp, 'b.log')
+        with open(plain, 'wb') as f:
+            f.write(data)
+        with gzip.open(gz, 'wb', compresslevel=1) as f:
+            f.write(data)
+        cur = t0 + timedelta(seconds=60 * (n - n // 50)) + timedelta(days=1)
+        out = {'bytes': len(data)}
+        for name, path in (('plain', plain), ('gzip', gz)):
+            c = SearchConstraintSearchSince(current_date=cur.strftime('%Y-%m-%d %H:%M:%S'),
+                                            ts_matcher_cls=matchers.MATCHERS['std'], days=1)
+            fs = FileSearcher(constraint=c)
+            fs.add(SearchDef(r'.* ERR$', tag='e'), path)
+            try:
+                with core.time_limit(300):
+                    res = fs.run()
+                out[name] = {'results': [r.linenumber for r in res.find_by_tag('e')][:20],
+                             'n': len(res), 'lines': fs.stats['lines_searched']}
+            except core.CaseTimeout:
+                out[name] = {'err': 'hang(>300s)'}
+            except Exception as e:  # pylint: disable=broad-except
+                out[name] = {'err': type(e).__name__}
+        return [out]
+    finally:
+        shutil.rmtree(tmp, ignore_errors=True)
+
+
 def run(tier, seed, replay_case=None):
     rep = core.Report(PROP, tier, seed)
     core.lean_build()
     aud = core.audit(PROP)
     total = 300 if tier == 'quick' else 5000
     items = []
-    corpus = core.load_corpus(PROP) if replay_case is None else [replay_case]
+    is_huge = replay_case is not None and replay_case.get('huge')
+    corpus = core.load_corpus(PROP) if replay_case is None else ([] if is_huge else [replay_case])
     if corpus:
         items += eval_cases(None, 0, {'fixed': corpus})
     if replay_case is None:
         items += core.run_sharded(eval_cases, seed, total, {'tier': tier})
+    if replay_case is None or is_huge:
+        for h in core.run_sharded(huge_eval, seed, 1, {'tier': tier}, shards=1, workers=1):
+            rep.evaluations += 1
+            rep.count('huge_gzip_cases')
+            rep.count('huge_gzip_bytes', h['bytes'])
+            if h['plain'] != h['gzip']:
+                rep.fail('failing-input', {'huge': True, 'lines': 300000},
+                         f"a {h['bytes']}-byte log with a file-level since constraint: plain "
+                         f"{h['plain']} but gzip {h['gzip']}", impl=h['gzip'], spec=h['plain'])
     drv = core.Driver()
     flat = []
     for it in items:
